@@ -396,7 +396,16 @@ def _ws_build(p):
     b4 = Byte(high=w6, low=w6)
     b5 = Byte(name='nm', high=n2, low=w6)
     wd3 = Word(values=[n2, w6, h ^ lo])
+    # slicing constructors driven by Python ints (constant folding path), mixed component widths
+    cpx = Pixel(Pixel=0b101101)
+    cpk = Packet(Packet=0x2A7)
+    cwd = Word(values=[0xB5A])
+    cne = Nested(values=[0b110100101011])
     return _outs([
+        ('cpx_r', cpx.r ^ h[0:3]), ('cpx_g', cpx.g ^ h[0:2]), ('cpx_b', cpx.b ^ h[0:1]),
+        ('cpk_tag', cpk.tag ^ h[0:2]), ('cpk_high', cpk.body.high ^ h), ('cpk_low', cpk.body.low ^ h),
+        ('cwd0', cwd[0] ^ h), ('cwd1', cwd[1] ^ h), ('cwd2', cwd[2] ^ h),
+        ('cne0_r', cne[0].r ^ h[0:3]), ('cne0_g', cne[0].g ^ h[0:2]), ('cne1_b', cne[1].b ^ h[0:1]),
         ('b3_all', pyrtl.as_wires(b3)), ('b3_high', b3.high), ('b4_all', pyrtl.as_wires(b4)),
         ('b5_all', pyrtl.as_wires(b5)), ('wd3_all', pyrtl.as_wires(wd3)), ('wd3_0', wd3[0]),
         ('b1_high', b1.high), ('b1_low', b1.low), ('b1_all', pyrtl.as_wires(b1)),
@@ -418,6 +427,10 @@ def _ws_spec(o, p, ins):
     extra = dict(b3_all=(n2 << 4) + (n2 & (lo % 4)), b3_high=n2,
                  b4_all=((w6 % 16) << 4) + (w6 % 16), b5_all=(n2 << 4) + (w6 % 16),
                  wd3_all=(n2 << 8) + ((w6 % 16) << 4) + (h ^ lo), wd3_0=n2)
+    extra.update(cpx_r=0b101 ^ (h % 8), cpx_g=0b10 ^ (h % 4), cpx_b=1 ^ (h % 2),
+                 cpk_tag=0x2 ^ (h % 4), cpk_high=0xA ^ h, cpk_low=0x7 ^ h,
+                 cwd0=0xB ^ h, cwd1=0x5 ^ h, cwd2=0xA ^ h,
+                 cne0_r=0b110 ^ (h % 8), cne0_g=0b10 ^ (h % 4), cne1_b=1 ^ (h % 2))
     return dict(extra, 
         b1_high=a >> 4, b1_low=a % 16, b1_all=a,
         b2_all=(h << 4) + lo, b2_high=h, b2_low=lo,
